@@ -1332,7 +1332,8 @@ fn small_group(rng: &mut Rng) -> Option<u32> {
         4 => Some(0),
         5 => Some(1),
         6 => Some(rng.range(2, 3) as u32),
-        _ => Some(rng.range(0, 5) as u32),
+        // (a group above 3 is refused by the Metal exporter, cleanly)
+        _ => Some(if rng.chance(1, 8) { rng.range(6, 9) as u32 } else { rng.range(0, 5) as u32 }),
     }
 }
 
@@ -1471,7 +1472,8 @@ fn gen_spell(rng: &mut Rng, r: &mut Res) {
 
 fn gen_res(rng: &mut Rng, i: usize, sofar: &[Res]) -> Res {
     let set = small_group(rng);
-    let len = if rng.chance(1, 3) { Some(rng.range(1, 4) as u32) } else { None };
+    // now and then a long array: the next resource of the group must start right after it
+    let len = if rng.chance(1, 3) { Some(if rng.chance(1, 10) { *rng.pick(&[16u32, 255, 1000]) } else { rng.range(1, 4) as u32 }) } else { None };
     let mut r = Res {
         name: format!("g_r{}", i),
         decl: Decl::Other,
